@@ -1,11 +1,23 @@
 package rtr
 
 import (
+	"bytes"
 	"fmt"
+	"net"
 	"net/netip"
 	"testing"
+	"time"
+
+	"github.com/gopacket/gopacket"
+	"github.com/scionproto/scion/pkg/addr"
+	"github.com/scionproto/scion/pkg/slayers/path"
+	"github.com/scionproto/scion/pkg/slayers/path/onehop"
+	"verif/internal/ref"
 
 	"pgregory.net/rapid"
+
+	"github.com/scionproto/scion/pkg/slayers"
+	"github.com/scionproto/scion/router"
 
 	"verif/internal/evid"
 	"verif/internal/netsim"
@@ -29,6 +41,24 @@ func runC02C07(t *testing.T, rec02, rec07 *evid.Rec) {
 		nPaths := 0
 		eachPath(rt, n, 40, func(pc pathCase) {
 			o := netsim.GenOpts(rt)
+			alert := ""
+			if rec07 != nil && rapid.IntRange(0, 3).Draw(rt, "routerAlert") == 0 {
+				// a traceroute request with a router-alert flag on a drawn hop: routers that do not consume
+				// the alert must forward the packet with the flag untouched
+				h := rapid.IntRange(0, pc.raw.NumHops-1).Draw(rt, "alertHop")
+				hf, _ := pc.raw.GetHopField(h)
+				if rapid.Bool().Draw(rt, "alertSide") {
+					hf.IngressRouterAlert = true
+				} else {
+					hf.EgressRouterAlert = true
+				}
+				_ = pc.raw.SetHopField(hf, h)
+				o.SrcPort = uint16(rapid.IntRange(1024, 65535).Draw(rt, "ident"))
+				o.SCMPHdr = &slayers.SCMP{TypeCode: slayers.CreateSCMPTypeCode(slayers.SCMPTypeTracerouteRequest, 0)}
+				o.SCMP = &slayers.SCMPTraceroute{Identifier: o.SrcPort, Sequence: 1}
+				o.Payload = nil
+				alert = fmt.Sprintf("alert on hop %d", h)
+			}
 			b, err := netsim.BuildPacket(pc.src, pc.dst, pc.raw, o)
 			if err != nil {
 				rt.Fatalf("building packet: %v", err)
@@ -53,7 +83,11 @@ func runC02C07(t *testing.T, rec02, rec07 *evid.Rec) {
 			}
 			if rec07 != nil {
 				for i, st := range w.Steps {
-					if err := checkStepBytes(n, st, pc.dst); err != nil {
+					stepDst := pc.dst
+					if st.Reply {
+						stepDst = pc.src // the router's answer travels back to the source
+					}
+					if err := checkStepBytes(n, st, stepDst); err != nil {
 						rt.Fatalf("%s -> %s over %v, step %d at %s router %d: %v", pc.src, pc.dst, metaSeq(pc.p), i, st.IA, st.Router, err)
 					}
 					v := st.Via
@@ -62,6 +96,9 @@ func runC02C07(t *testing.T, rec02, rec07 *evid.Rec) {
 						xover = st.In[pcOff(st.In)]>>6 != st.Out[pcOff(st.Out)]>>6
 					}
 					ls := []string{"step_via_" + v}
+					if alert != "" && st.Res.Disposition == router.VerifDispForward && !st.Reply {
+						ls = append(ls, "step_forward_with_unconsumed_alert")
+					}
 					if xover {
 						ls = append(ls, "step_segment_change")
 					}
@@ -75,6 +112,9 @@ func runC02C07(t *testing.T, rec02, rec07 *evid.Rec) {
 				})
 			}
 		})
+		if rec07 != nil {
+			c07OneHop(rt, n, rec07)
+		}
 		if rec02 != nil {
 			rec02.Label("topologies")
 			rec02.Label(fmt.Sprintf("ases_%d", len(n.Sim.Order)))
@@ -101,9 +141,84 @@ func TestC02(t *testing.T) {
 func TestC07(t *testing.T) {
 	rec := evid.New("C07", "rapid: the C02 walks; every forwarding step (external, sibling or host ingress) is byte-compared: (i) differing positions must lie in {pointer byte of the path meta header, SegID bytes of the segment current on entry and on exit}; "+
 		"length unchanged; (ii) the output must equal an independent reference forwarding step written from the header specification. Non-trivial: step with a segment change or a packet carrying extension headers. "+
-		"Router-alert consumption and one-hop completion are covered by the C10 and C12 checks.")
+		"Also: traceroute requests with a router-alert flag on a drawn hop (routers that do not consume it must leave it untouched) and one-hop-path packets with and without extension headers over every inter-AS link "+
+		"(first router: only the SegID changes; second router: only the second hop field is filled in, with the reference MAC).")
 	defer rec.Flush(t)
 	rec.Assume("reference forwarder (ref.Forward, 70 lines) from doc/protocols/scion-header.rst; one deviation shared by combinator and router: against construction direction the SegID is updated when the packet enters the AS from outside")
-	rec.Require("step_via_ext", "step_via_sib", "step_via_host", "step_segment_change", "step_with_extension_header")
+	rec.Require("step_via_ext", "step_via_sib", "step_via_host", "step_segment_change", "step_with_extension_header", "step_forward_with_unconsumed_alert", "onehop_first_router", "onehop_second_router", "onehop_with_extension_header")
 	runC02C07(t, nil, rec)
+}
+
+// c07OneHop sends one-hop-path packets (with and without extension headers) over every inter-AS
+// interface and byte-compares both routers' outputs with the reference.
+func c07OneHop(rt *rapid.T, n *netsim.Net, rec *evid.Rec) {
+	for _, ia := range n.Sim.Order {
+		a := n.Sim.ASes[ia]
+		for _, ifc := range a.Spec.Ifs {
+			key := keyOf(n, ia)
+			info := path.InfoField{ConsDir: true, Timestamp: uint32(time.Now().Unix() - 20), SegID: rapid.Uint16().Draw(rt, "ohpSegID")}
+			first := path.HopField{ConsEgress: ifc.ID, ExpTime: uint8(rapid.IntRange(10, 255).Draw(rt, "ohpExp"))}
+			first.Mac = ref.HopMAC(key, info.SegID, info.Timestamp, first.ExpTime, 0, ifc.ID)
+			s := &slayers.SCION{NextHdr: slayers.L4UDP, PathType: onehop.PathType, Path: &onehop.Path{Info: info, FirstHop: first}, SrcIA: ia, DstIA: ifc.Remote,
+				FlowID: rapid.Uint32Range(0, 0xfffff).Draw(rt, "ohpFlow"), TrafficClass: rapid.Uint8().Draw(rt, "ohpTC")}
+			_ = s.SetSrcAddr(addr.MustParseHost("10.9.9.7"))
+			_ = s.SetDstAddr(addr.HostSVC(addr.SvcCS))
+			ls := []gopacket.SerializableLayer{s}
+			next := &s.NextHdr
+			ext := false
+			if rapid.Bool().Draw(rt, "ohpHBH") {
+				h := &slayers.HopByHopExtn{Options: []*slayers.HopByHopOption{{OptType: 55, OptData: rapid.SliceOfN(rapid.Byte(), 0, 20).Draw(rt, "hbhData")}}}
+				*next = slayers.HopByHopClass
+				next = &h.NextHdr
+				ls = append(ls, h)
+				ext = true
+			}
+			if rapid.Bool().Draw(rt, "ohpE2E") {
+				e := &slayers.EndToEndExtn{Options: []*slayers.EndToEndOption{{OptType: 66, OptData: rapid.SliceOfN(rapid.Byte(), 0, 20).Draw(rt, "e2eData")}}}
+				*next = slayers.End2EndClass
+				next = &e.NextHdr
+				ls = append(ls, e)
+				ext = true
+			}
+			*next = slayers.L4UDP
+			u := &slayers.UDP{SrcPort: 40001, DstPort: 0}
+			u.SetNetworkLayerForChecksum(s)
+			ls = append(ls, u, gopacket.Payload(rapid.SliceOfN(rapid.Byte(), 0, 50).Draw(rt, "ohpPayload")))
+			buf := gopacket.NewSerializeBuffer()
+			if err := gopacket.SerializeLayers(buf, gopacket.SerializeOptions{FixLengths: true, ComputeChecksums: true}, ls...); err != nil {
+				rt.Fatalf("serializing the one-hop packet: %v", err)
+			}
+			raw := append([]byte{}, buf.Bytes()...)
+			for _, r := range n.Sim.ASes[ifc.Remote].Routers {
+				_ = r.DP.AddSvc(addr.SvcCS, addr.MustParseHost("10.77.0.1"), 30252)
+			}
+			w := n.Sim.Walk(ia, ifc.ID, &net.UDPAddr{IP: net.IPv4(10, 9, 9, 7), Port: 40001}, raw)
+			if !w.Delivered || len(w.Steps) != 2 {
+				rt.Fatalf("one-hop packet %s#%d -> %s (extension headers: %v) not delivered in two router steps: %s\n%s", ia, ifc.ID, ifc.Remote, ext, w.Stopped, dumpWalk(w))
+			}
+			off := 12 + 16 + 4 + 4 // SVC/IPv4 host addresses
+			want1 := append([]byte{}, raw...)
+			want1[off+2] ^= first.Mac[0]
+			want1[off+3] ^= first.Mac[1]
+			if !bytes.Equal(w.Steps[0].Out, want1) {
+				rt.Fatalf("first router changed more than the segment identifier of a one-hop packet (extension headers: %v)\n in  %x\n out %x\n ref %x", ext, raw, w.Steps[0].Out, want1)
+			}
+			want2 := append([]byte{}, want1...)
+			so := off + 8 + 12
+			copy(want2[so:], make([]byte, 12))
+			want2[so+1] = first.ExpTime
+			want2[so+2], want2[so+3] = byte(ifc.RemoteID>>8), byte(ifc.RemoteID)
+			segIn := info.SegID ^ (uint16(first.Mac[0])<<8 | uint16(first.Mac[1]))
+			m2 := ref.HopMAC(keyOf(n, ifc.Remote), segIn, info.Timestamp, first.ExpTime, ifc.RemoteID, 0)
+			copy(want2[so+6:], m2[:])
+			if !bytes.Equal(w.Steps[1].Out, want2) {
+				rt.Fatalf("second router's completion of a one-hop path differs from the reference (extension headers: %v)\n in  %x\n out %x\n ref %x", ext, want1, w.Steps[1].Out, want2)
+			}
+			labels := []string{"onehop_first_router", "onehop_second_router"}
+			if ext {
+				labels = append(labels, "onehop_with_extension_header")
+			}
+			rec.Case(ext, fmt.Sprintf("ohp%x", raw), labels...)
+		}
+	}
 }
